@@ -999,3 +999,5 @@ T('f_c13_headers_pairs_made_strings', ['C13', 'C12'],
   (E, _HE_POP, _HE_POP + "        if isinstance(headers, dict):\n            headers = [(str(k), str(v)) for k, v in headers.items()]\n"))
 T('f_c13_headers_own_constant_pairs', ['C13', 'C12'],
   (E, _HE_POP, _HE_POP + "        if headers is None:\n            headers = [('X-Clastic-Error', '%s' % self.code)]\n"))
+T('f_c13_stamp_handler_notes_and_goes_on', ['C13', 'C12'],
+  (A, _TAG, _TAG.replace('            pass\n', "            print('request type %r takes no id' % (self.request_type,))\n")))
